@@ -411,7 +411,8 @@ def check_oracle(dirname, oracles):
                     os.path.join(cli_args.test_directory, 'tmp', str(pid)),
                     os.path.join(cli_args.test_directory, str(pid)))
                 proc_res.stats['error'] = compiler.crash_msg
-                output[pid] = proc_res.stats
+            # Programs the tool itself failed on are faults too.
+            output[pid] = proc_res.stats
         return output, compilation_time
 
     output = {}
